@@ -10,6 +10,7 @@ import (
 	"encoding/hex"
 	"fmt"
 	"io"
+	"reflect"
 	"regexp"
 	"runtime"
 	"strconv"
@@ -233,7 +234,13 @@ func (ss *c11Sess) add(st *VStream, idx int, kind string, pats []string) {
 		}
 	}
 	ss.allPats = append(ss.allPats, pats...)
-	res := VRecover(func() string { ss.m.AddSet(idx, pats, consts.RoutingDomainKey(kind)); return "ok" })
+	// the caller owns the slice it passes (config parsing reuses buffers): hand AddSet a copy and overwrite
+	// it afterwards — a matcher that kept the slice instead of its contents would index the junk
+	pp := append([]string(nil), pats...)
+	res := VRecover(func() string { ss.m.AddSet(idx, pp, consts.RoutingDomainKey(kind)); return "ok" })
+	for i := range pp {
+		pp[i] = "zz-overwritten-by-the-caller.example"
+	}
 	st.Emit(strings.TrimRight(fmt.Sprintf("add %d %s %s", idx, kind, strings.Join(toks, " ")), " "), res)
 }
 
@@ -246,7 +253,65 @@ func (ss *c11Sess) build(st *VStream, stats *VStats) error {
 	res := c11ErrClass(err)
 	stats.Inc("dm.build." + res)
 	st.Emit("build", res)
+	if err == nil {
+		// the order in which Build's workers committed (white-box, read by reflection; skipped when the fields
+		// are gone): the model runs MatchDomainBitmap's loops in this order from here on
+		if vt, va, vr, ok := c11IndexLists(ss.m); ok {
+			st.Emit(fmt.Sprintf("ix %s %s %s", vt, va, vr), "ok")
+			stats.Inc("dm.ix.reported")
+			if !c11Ascending(vt) || !c11Ascending(va) {
+				stats.Inc("dm.ix.non_ascending_commit_order")
+			}
+		}
+	}
 	return err
+}
+
+func c11Ascending(l string) bool {
+	prev := -1
+	if l == "-" {
+		return true
+	}
+	for _, t := range strings.Split(l, ",") {
+		v, _ := strconv.Atoi(t)
+		if v < prev {
+			return false
+		}
+		prev = v
+	}
+	return true
+}
+
+func c11IndexLists(m *AhocorasickSlimtrie) (vt, va, vr string, ok bool) {
+	defer func() {
+		if recover() != nil {
+			ok = false
+		}
+	}()
+	v := reflect.ValueOf(m).Elem()
+	one := func(name string) string {
+		f := v.FieldByName(name)
+		if !f.IsValid() || f.Kind() != reflect.Slice {
+			panic("gone")
+		}
+		if f.Len() == 0 {
+			return "-"
+		}
+		p := make([]string, f.Len())
+		for i := 0; i < f.Len(); i++ {
+			e := f.Index(i)
+			switch e.Kind() {
+			case reflect.Int, reflect.Int8, reflect.Int16, reflect.Int32, reflect.Int64:
+				p[i] = strconv.FormatInt(e.Int(), 10)
+			case reflect.Uint, reflect.Uint8, reflect.Uint16, reflect.Uint32, reflect.Uint64:
+				p[i] = strconv.FormatUint(e.Uint(), 10)
+			default:
+				panic("kind")
+			}
+		}
+		return strings.Join(p, ",")
+	}
+	return one("validTrieIndexes"), one("validAcIndexes"), one("validRegexpIndexes"), true
 }
 
 func (ss *c11Sess) query(st *VStream, stats *VStats, name string) {
@@ -759,6 +824,121 @@ func c11FullTableSession(st *VStream, stats *VStats, r *VRand, bitLen int) {
 	}
 }
 
+// a failing AddSet at every position of a short history, every error class: the first error wins, later
+// calls (valid or not) are ignored, Build reports it, nothing is indexed
+func c11ErrorAtEveryStep(st *VStream, stats *VStats, r *VRand) {
+	log := logrus.New()
+	log.SetOutput(io.Discard)
+	for _, bitLen := range []int{1, 32, 64, 1024} {
+		for class := 0; class < 4; class++ {
+			const steps = 4
+			for at := 0; at < steps; at++ {
+				ss := &c11Sess{m: NewAhocorasickSlimtrie(log, bitLen)}
+				st.Emit(fmt.Sprintf("new %d", bitLen), "ok")
+				for k := 0; k < steps; k++ {
+					idx := (k * 7) % bitLen
+					if k != at {
+						kind := []string{"suffix", "full", "keyword", "regex"}[(k+class)%4]
+						pat := c11Name(r)
+						if kind == "regex" {
+							pat = c11Regexes[r.Intn(len(c11Regexes))]
+						}
+						ss.add(st, idx, kind, []string{pat, "example.com"})
+						continue
+					}
+					switch class {
+					case 0:
+						ss.add(st, bitLen, "suffix", []string{"example.com"}) // exactly one past the table
+					case 1:
+						ss.add(st, -1, "full", []string{"example.com"})
+					case 2:
+						ss.add(st, idx, "regex", []string{`\.cn$`, "(", `^a`})
+					default:
+						ss.add(st, idx, "bogus", []string{"example.com"})
+					}
+				}
+				ss.build(st, stats)
+				ss.query(st, stats, "www.example.com")
+				stats.Inc("dm.err_at_step.sessions")
+			}
+		}
+	}
+}
+
+// the last valid index and the first invalid one, for every table size; the whole last word in use
+func c11BoundaryIndexSessions(st *VStream, stats *VStats, r *VRand) {
+	log := logrus.New()
+	log.SetOutput(io.Discard)
+	for _, bitLen := range []int{1, 3, 31, 32, 33, 63, 64, 65, 96, 1000, 1023, 1024} {
+		ss := &c11Sess{m: NewAhocorasickSlimtrie(log, bitLen)}
+		st.Emit(fmt.Sprintf("new %d", bitLen), "ok")
+		names := []string{}
+		for _, idx := range []int{bitLen - 1, 0, bitLen - 1 - (bitLen-1)%32, (bitLen - 1) / 2} {
+			if idx < 0 {
+				continue
+			}
+			p := fmt.Sprintf("b%d-%d.%s", bitLen, idx, c11Name(r))
+			ss.add(st, idx, []string{"suffix", "full", "keyword"}[idx%3], []string{p})
+			names = append(names, p)
+		}
+		if ss.build(st, stats) == nil {
+			for _, nm := range names {
+				ss.query(st, stats, nm)
+				ss.query(st, stats, "x."+nm)
+			}
+		}
+		stats.Inc("dm.boundary_index.sessions")
+		// the same with one call addressed to index == table size
+		ss = &c11Sess{m: NewAhocorasickSlimtrie(log, bitLen)}
+		st.Emit(fmt.Sprintf("new %d", bitLen), "ok")
+		ss.add(st, bitLen-1, "suffix", []string{"a.example.com"})
+		ss.add(st, bitLen, "suffix", []string{"b.example.com"})
+		ss.build(st, stats)
+		ss.query(st, stats, "a.example.com")
+		stats.Inc("dm.boundary_index.one_past")
+	}
+}
+
+// one bit index fed by several kinds (a set with suffix AND keyword AND regex patterns), next to sets that match
+// by one kind only, placed before and after it: every combination of "which phase of MatchDomainBitmap fires"
+func c11MixedKindSets(st *VStream, stats *VStats, r *VRand) {
+	log := logrus.New()
+	log.SetOutput(io.Discard)
+	for round := 0; round < 6; round++ {
+		bitLen := []int{64, 1024, 33}[round%3]
+		ss := &c11Sess{m: NewAhocorasickSlimtrie(log, bitLen)}
+		st.Emit(fmt.Sprintf("new %d", bitLen), "ok")
+		base := c11Name(r)
+		mixed := []int{1, bitLen / 2, bitLen - 2}[round%3]
+		lo, hi := mixed-1, mixed+1
+		// the mixed set: all three kinds on one bit
+		ss.add(st, mixed, "suffix", []string{"s." + base})
+		ss.add(st, mixed, "keyword", []string{"kwmix"})
+		ss.add(st, mixed, "regex", []string{`^rxmix\d+\.`})
+		ss.add(st, mixed, "full", []string{"full." + base})
+		// single-kind sets around it (their list positions relative to the mixed set differ per list)
+		ss.add(st, lo, "keyword", []string{"kwlo"})
+		ss.add(st, hi, "keyword", []string{"kwhi"})
+		ss.add(st, lo, "regex", []string{`^rxlo\.`})
+		ss.add(st, hi, "regex", []string{`^rxhi\.`})
+		ss.add(st, hi, "suffix", []string{"hi." + base})
+		if ss.build(st, stats) != nil {
+			continue
+		}
+		for _, nm := range []string{
+			"s." + base, "a.s." + base, "full." + base, "x.full." + base, "kwmix.net", "rxmix12.org",
+			"kwmix.s." + base, "rxmix1.s." + base, "rxmix1.kwmix.s." + base, "rxmix7.kwmix.org",
+			"kwlo.s." + base, "kwhi.s." + base, "kwlo.kwhi.kwmix.org", "rxlo.kwhi.s." + base, "rxhi.kwlo.org",
+			"rxlo.kwmix.org", "rxhi.s." + base, "kwlo.hi." + base, "rxmix3.kwlo.hi." + base, "rxlo.hi." + base,
+			"kwhi.org", "rxhi.org", "rxlo.org", "kwlo.org", "hi." + base, "nothing.example",
+		} {
+			ss.query(st, stats, nm)
+			stats.Inc("dm.mixed_kind.queries")
+		}
+		stats.Inc("dm.mixed_kind.sessions")
+	}
+}
+
 func c11ValidSet(f func(byte) bool) string {
 	b := []byte{}
 	for c := 0; c < 256; c++ {
@@ -914,6 +1094,9 @@ func TestVerifC11Matcher(t *testing.T) {
 		}
 		c11RunSession(st, stats, r, bitLen, nsets, mp, nq)
 	}
+	c11ErrorAtEveryStep(st, stats, r)
+	c11BoundaryIndexSessions(st, stats, r)
+	c11MixedKindSets(st, stats, r)
 	c11FullTableSession(st, stats, r, 1024)
 	// geosite scale, deterministically
 	if VThorough() {
@@ -946,6 +1129,21 @@ func TestVerifC11Concurrent(t *testing.T) {
 		log := logrus.New()
 		log.SetOutput(io.Discard)
 		m := NewAhocorasickSlimtrie(log, 1024)
+		// Build sizes its worker pool by GOMAXPROCS (min(GOMAXPROCS, 4)): run the sessions under several values
+		restoreProcs := func() {}
+		if procs := []int{0, 1, 2, 3, 16}[s%5]; procs > 0 {
+			old := runtime.GOMAXPROCS(procs)
+			restoreProcs = func() { runtime.GOMAXPROCS(old) }
+			stats.Inc(fmt.Sprintf("cc.gomaxprocs.%d", procs))
+		} else {
+			stats.Inc("cc.gomaxprocs.default")
+		}
+		type call struct {
+			idx  int
+			pats []string
+			kind string
+		}
+		calls := []call{}
 		nsets := r.Range(24, 60) // many small sets: Build's workers finish close together
 		if s%8 == 3 {
 			nsets = 1024 // the whole 1 024-entry table in use
@@ -985,6 +1183,7 @@ func TestVerifC11Concurrent(t *testing.T) {
 				}
 			}
 			m.AddSet(idx, append([]string{pat}, extra...), consts.RoutingDomainKey(kind))
+			calls = append(calls, call{idx, append([]string{pat}, extra...), kind})
 			owns = append(owns, own{idx, base})
 			desc = append(desc, fmt.Sprintf("%d:%s:%s", idx, kind, c11Hex(pat)))
 		}
@@ -1041,9 +1240,31 @@ func TestVerifC11Concurrent(t *testing.T) {
 				conc[g] = got
 			}()
 		}
+		// a reload: the next generation's matcher (same configuration) is filled and built while the current one
+		// is being queried; afterwards it must answer like the current one
+		var m2 *AhocorasickSlimtrie
+		overlap := s%3 == 0
+		if overlap {
+			m2 = NewAhocorasickSlimtrie(log, 1024)
+			for _, c := range calls {
+				m2.AddSet(c.idx, c.pats, consts.RoutingDomainKey(c.kind))
+			}
+			if err := m2.Build(); err != nil && res == "same" {
+				res = "builderr2:" + err.Error()
+			}
+			stats.Inc("cc.generation_overlap")
+		}
 		wg.Wait()
 		if fresh {
 			sequential() // the reference answers, computed after the race
+		}
+		if overlap && res == "same" {
+			for i, nm := range names {
+				if got := c11Words(m2.MatchDomainBitmap(nm)); got != seq[i] {
+					res = fmt.Sprintf("next-generation-differs:%s:cur=%s:next=%s", c11Hex(nm), seq[i], got)
+					break
+				}
+			}
 		}
 		for g := range conc {
 			for k := 0; k+1 < len(conc[g]); k += 2 {
@@ -1061,6 +1282,7 @@ func TestVerifC11Concurrent(t *testing.T) {
 		stats.Inc("cc.sessions")
 		stats.Add("cc.sets", len(owns))
 		st.Emit("cc "+strings.Join(desc, " "), res)
+		restoreProcs()
 	}
 	// with one P, Build's worker semaphore serialises its goroutines: an unsynchronised append there
 	// is then invisible to the detector
